@@ -231,17 +231,25 @@ func (s *State) symJSONUnmarshalString(elems []Value, target Ptr) Value {
 					hex = append(hex, s.concreteByte(elems[i+k], "hex digit of a \\u escape"))
 				}
 				var dec string
-				if err := jsonUnmarshalHost(`"\u`+string(hex)+`"`, &dec); err != nil {
-					return fail(err.Error())
+				text := `\u` + string(hex)
+				consumed := 6
+				// a high surrogate directly followed by another \uXXXX escape is decoded as a pair by the host
+				hi, _ := strconv.ParseUint(string(hex), 16, 32)
+				if hi >= 0xD800 && hi <= 0xDBFF && i+11 < n && s.byteIs(elems[i+6], '\\') && s.byteIs(elems[i+7], 'u') {
+					var hex2 []byte
+					for k := 8; k <= 11; k++ {
+						hex2 = append(hex2, s.concreteByte(elems[i+k], "hex digit of a \\u escape"))
+					}
+					text += `\u` + string(hex2)
+					consumed = 12
 				}
-				// surrogate pairs across two escapes are not modelled
-				if len(hex) == 4 && (hex[0] == 'd' || hex[0] == 'D') && (hex[1] >= '8') {
-					s.abort("json string model: surrogate escape")
+				if err := jsonUnmarshalHost(`"`+text+`"`, &dec); err != nil {
+					return fail(err.Error())
 				}
 				for k := 0; k < len(dec); k++ {
 					out.B = append(out.B, uint64(dec[k]))
 				}
-				i += 6
+				i += consumed
 				continue
 			default:
 				return fail("invalid character in string escape code")
